@@ -53,6 +53,12 @@ P02_Delta(w, ev, w2, h, r, rp) ==
      /\ (Pred(r) /\ r.ok) => (IsOk(ev) \/ GasRefusal(ev))                 \* a nominal call has the stated effect (it is not refused)
      /\ (IsOk(ev) /\ ev.fn # "ESDTWipe" /\ Pred(rp) /\ rp.ok) => Bal(w2) = Bal(rp.w)   \* an accepted call changes exactly the stated amount
      /\ (IsOk(ev) /\ ev.fn = "ESDTWipe" /\ Pred(r)) => (r.ok /\ Bal(w2) = Bal(r.w))
+\* "creates exactly the given quantity under a FRESH nonce": never one that was issued before for the token
+P02_FreshNonce(w, ev, w2, h, r) ==
+  (Call(ev) /\ IsOk(ev) /\ ev.fn = "ESDTNFTCreate" /\ NArgs(ev) >= 2 /\ ev.caller \in Accts(w) /\ ~IsDupTok(Arg(ev,1).h)) =>
+     LET t == Arg(ev,1).h
+         n == ev.retn IN
+     n > MaxN(h, t) /\ ~(<<t, n>> \in h.made)
 P02_Others(w, ev, w2, h, r) ==
   (~Call(ev) \/ ~(ev.fn \in SupplyFns \cup TokenFns)) => Bal(w2) = Bal(w)
 P02_NoOverdraft(w, ev, w2, h, r) ==
@@ -200,6 +206,14 @@ P07_ReturnedNonce(w, ev, w2, h, r) ==
      /\ (t \o NBHex(n)) \in DOMAIN w2.acct[ev.caller].esdt
      /\ w2.acct[ev.caller].esdt[t \o NBHex(n)].hm /\ w2.acct[ev.caller].esdt[t \o NBHex(n)].meta.nonce = n
      /\ (IsDupTok(t) \/ (n > MaxN(h, t) /\ ~(<<t, n>> \in h.made)))
+\* The same under a failing dependency (fault lines: the call is probed on the pre-state with one dependency operation failing, world unchanged):
+\* IF the create still succeeds it returns previous + 1, and a hand-over that still succeeds ships the holder's counter - a counter that could
+\* not be read is not "no counter".
+P07_FaultNonce(w, ev, w2, h, r) ==
+  (ev.a = "fault" /\ ev.x.fired /\ ev.res = "ok" /\ NArgs(ev) >= 1 /\ ev.caller \in Accts(w)) =>
+     /\ (ev.fn = "ESDTNFTCreate") => ev.retn = CtrOf(w.acct[ev.caller], Arg(ev,1).h) + 1
+     /\ (ev.fn = "ESDTNFTCreateRoleTransfer" /\ ev.rcpt \in Accts(w)) =>
+           \A i \in 1..Len(ev.out) : (ev.out[i].fn = "ESDTNFTCreateRoleTransfer" /\ Len(ev.out[i].args) >= 2) => ev.out[i].args[2].n = CtrOf(w.acct[ev.rcpt], Arg(ev,1).h)
 \* what the hand-over messages in flight carry: token and counter (and who gets them)
 HandoverMsgs(ms) == {<<ms[i].from, ms[i].to, SemMsg(ms[i]).args>> : i \in {j \in 1..Len(ms) : ms[j].fn = "ESDTNFTCreateRoleTransfer"}}
 P07_Handover(w, ev, w2, h, r) ==
